@@ -166,6 +166,27 @@ CHECKS = [
         'note': 'the spec table is my transcription of the doc comments; undocumented operand aliasing is not generated; '
                 'bit.address_and_variable_xor and internal helper macros are not covered',
     },
+    {
+        'property_id': 'C03', 'level': 'exploration', 'design_ref': 'DESIGN.md 4 C03, 3.6, Appendix B',
+        'technique': 'runtime monitoring: differential of assembled images - macro program vs the hand-inlined program produced from the same binding-explicit AST',
+        'text': 'Macro programs are generated from an AST in which every identifier occurrence carries the binding it is meant to '
+                'denote (parameter, @ local, global, rep iterator, constant); spellings come from a six-name pool so caller and '
+                'callee identifiers collide at every depth. The macro rendering (call DAGs, arity overloading, nested namespaces '
+                'with dotted/relative names, reps with counts 0..5, 1-3 files) and the hand-inlined rendering (arguments '
+                'substituted in parentheses, locals renamed apart, reps unrolled) must assemble to identical segments and words.',
+        'note': 'relies on the scoping rules of DESIGN Appendix B; extern (>) labels and label-valued parameters are not generated; '
+                'the inlined side is itself judged by C02',
+    },
+    {
+        'property_id': 'C16', 'level': 'exploration', 'design_ref': 'DESIGN.md 4 C16',
+        'technique': 'runtime monitoring: model-predicted label names and addresses compared with the saved debug table; set-model oracle for breakpoint resolution; save/load round trip',
+        'text': 'For generated macro and primitive programs every source label (top-level, namespaced, macro-local in every '
+                'expansion incl. rep iterations) must appear in the saved table under its expansion-path name with the address of '
+                'the statement it precedes (taken from the hand-inlined program), and no undeclared user-level name may appear; '
+                'random label dictionaries must survive save/load unchanged and in order; breakpoints by address, exact label '
+                'and substring must resolve to exactly the model set.',
+        'note': 'assembler bookkeeping names (:start:, :wflips:, wflip-area markers) are ignored',
+    },
 ]
 
 _TODO = 'check not built yet in this session (work in progress; see DESIGN.md for the planned monitor)'
